@@ -7,6 +7,8 @@
 //!   form: the character is the typed one.  Full-width form: it is a wide character (not ASCII), the
 //!   standard full-width form for letters, digits and the space, and the mapping observed over the run
 //!   is a function and injective (distinct characters stay distinct);
+//! * a keypad key (NumLock modifier) yields its character verbatim in every mode (as coded; outside the
+//!   statement, checked so that the scope boundary is observed);
 //! * CapsLock toggles the language mode and nothing else among the 14 options; Shift-Space (state
 //!   Entering) toggles the character form iff the toggle key is enabled; no other key changes any
 //!   option; neither toggle nor a configuration call alters the text in the buffer.
@@ -26,6 +28,7 @@ struct Seen {
     toggles_form: u64,
     toggles_nonempty: u64,
     setopts: u64,
+    numlock: u64,
 }
 
 thread_local! {
@@ -50,6 +53,7 @@ pub fn finish(out: &mut Out) {
         out.stat("c18_shiftspace_toggles", s.toggles_form);
         out.stat("c18_toggles_with_text_in_buffer", s.toggles_nonempty);
         out.stat("c18_setopts_calls", s.setopts);
+        out.stat("c18_numlock_keys", s.numlock);
     });
 }
 
@@ -110,13 +114,21 @@ pub fn check(out: &mut Out, st: &Step) {
     let u = ev.unicode as u32;
     let printable_key = state0 == b'E' && (1..=48).contains(&code) && (0x20..=0x7e).contains(&u) && !m.ctrl && !m.numlock
         && !(ev.code == KeyCode::Space && m.shift);
-    if !printable_key {
+    // keypad keys (NumLock modifier) are passed through verbatim in either form and language mode
+    let numlock_key = state0 == b'E' && (1..=48).contains(&code) && (0x20..=0x7e).contains(&u) && !m.ctrl && m.numlock
+        && !(ev.code == KeyCode::Space && m.shift && o0[13] == "1") && !(ev.code == KeyCode::Space && o0[2] == "1" && o0[8] == "0");
+    if !printable_key && !numlock_key {
         return;
     }
-    let english = o0[8] == "1";
-    let full = o0[9] == "1";
+    let english = o0[8] == "1" || numlock_key;
+    let full = o0[9] == "1" && !numlock_key;
+    if numlock_key {
+        SEEN.with(|s| s.borrow_mut().numlock += 1);
+    }
     let shifted_letter_in_chinese = !english && o0[0] == "0" && m.shift && (b'A' as u32..=b'Z' as u32).contains(&u);
-    SEEN.with(|s| s.borrow_mut().cells.insert((u, full, english, s0.is_empty())));
+    if !numlock_key {
+        SEEN.with(|s| s.borrow_mut().cells.insert((u, full, english, s0.is_empty())));
+    }
     if !(english || shifted_letter_in_chinese) {
         return;
     }
